@@ -134,6 +134,10 @@ func newArrayType2(args ...px.Value) *ArrayType {
 			}
 			max = math.MaxInt64
 		}
+		if min == 0 && max == 0 && offset == 1 {
+			// Array[0, 0] is how the type of the empty array prints
+			return EmptyArrayType()
+		}
 		rng = NewIntegerType(min, max)
 	default:
 		panic(illegalArgumentCount(`Array[]`, `0 - 3`, argc))
@@ -244,7 +248,8 @@ func (t *ArrayType) Parameters() []px.Value {
 	}
 
 	params := make([]px.Value, 0)
-	if !t.typ.Equals(DefaultAnyType(), nil) {
+	if !t.typ.Equals(DefaultAnyType(), nil) || *t.size == *IntegerTypeZero {
+		// Array[0, 0] denotes the type of the empty array, so Array[Any, 0, 0] must keep its element type
 		params = append(params, t.typ)
 	}
 	if *t.size != *IntegerTypePositive {
